@@ -143,7 +143,7 @@ class Templates:
 
 
 def apply_history(tp, ins, hist):
-    """Run a history on a fresh real Context.  Returns (events, final_inputs, error)."""
+    """Run a history on a fresh real Context.  Returns (events, final_inputs, use_top_input, error)."""
     ctx = tp.Context()
     ctx.inputs[0][0] = list(ins)          # execute_vyxal: ctx.inputs[0][0] = inputs
     evs = []
@@ -168,9 +168,9 @@ def apply_history(tp, ins, hist):
                 exec(tp.lam_pop if op[1] == "L" else tp.fun_pop, tp.ns, {"ctx": ctx})
                 evs.append(("X", None, []))
     except Exception as e:  # noqa: BLE001
-        return evs, None, f"{type(e).__name__}: {str(e)[:120]}"
+        return evs, None, None, f"{type(e).__name__}: {str(e)[:120]}"
     fin = [[[canon_val(x) for x in sc[0]], sc[1]] for sc in ctx.inputs]
-    return evs, fin, None if ctx.use_top_input is False else "use_top_input left set"
+    return evs, fin, bool(ctx.use_top_input), None
 
 
 def enum_histories(alphabet, maxlen):
@@ -231,10 +231,10 @@ def coq_op(op, arg):
     return "Exit"
 
 
-def coq_case(ins, evs, fin):
+def coq_case(ins, evs, fin, ut=False):
     e = "(@nil (op * list Z))" if not evs else "[" + "; ".join(f"({coq_op(o, a)}, {zl(v)})" for o, a, v in evs) + "]"
     f = "(@nil scope)" if not fin else "[" + "; ".join(f"({zl(l)}, {c})" for l, c in fin) + "]"
-    return f"({zl(ins)}, {e}, {f})"
+    return f"({zl(ins)}, {e}, {f}, {'true' if ut else 'false'})"
 
 
 PRE = ("From Coq Require Import List ZArith Bool Arith.\nFrom Vy Require Import Model.Input.\n"
@@ -262,11 +262,12 @@ def histories_part(env, stats):
     if tp.problems:
         return
     full = [("E",), ("I", 1), ("I", 2), ("I", 3), ("N", "L", 0), ("N", "L", 1), ("N", "L", 2), ("N", "F", 2), ("X",)]
-    small = [("E",), ("I", 1), ("I", 2), ("N", "L", 0), ("N", "L", 2), ("N", "F", 1), ("X",)]
+    mid = [("E",), ("I", 1), ("I", 2), ("N", "L", 0), ("N", "L", 2), ("N", "F", 1), ("X",)]
+    small = [("E",), ("I", 1), ("I", 2), ("N", "L", 0), ("N", "L", 2), ("X",)]
     hs = enum_histories(full, 4)
     seen = {V.canon(hist_json(h)) for h in hs}
     if env.thorough:
-        for h in enum_histories(small, 6):
+        for h in enum_histories(mid, 5) + enum_histories(small, 6):
             k = V.canon(hist_json(h))
             if k not in seen:
                 seen.add(k)
@@ -280,25 +281,29 @@ def histories_part(env, stats):
     stats["random_histories"] = nrand
     cases, metas, keys = [], [], []
     for ins, h in work:
-        evs, fin, err = apply_history(tp, ins, h)
+        evs, fin, ut, err = apply_history(tp, ins, h)
         stats["len"][len(h)] += 1
         for o in h:
             stats["ops"][f"I{o[1]}" if o[0] == "I" else f"N{o[1]}{len(o[2])}" if o[0] == "N" else o[0]] += 1
         inp = {"kind": "history", "inputs": ins, "history": hist_json(h)}
         if err is not None:
+            stats["caught"]["history-oracle"] += 1
             env.fail(inp, f"history on the real Context: {err}; values so far {[v for _, _, v in evs]}", cls="history-error")
             continue
         bad = oracle_events(ins, evs)
         depth = 1 + sum(1 for o in h if o[0] == "N") - sum(1 for o in h if o[0] == "X")
         nserved = sum(len(v) for (o, a, v), d in zip(evs, depths(h)) if o == "E" or (o == "I" and d == 1))
+        if bad is None and ut:
+            bad = "ctx.use_top_input is still set after the history: later implicit reads in a call would be served by the program inputs"
         if bad is None and (len(fin) != depth or fin[0][0] != list(ins) or fin[0][1] != (nserved if ins else 0)):
             bad = f"final ctx.inputs {fin}: the property requires {depth} scope(s) and the top-level cursor at {nserved if ins else 0}"
         if bad is not None:
+            stats["caught"]["history-oracle"] += 1
             env.fail(inp, bad, cls="history")
         if not all_ints(evs, fin):
             env.disagree("history values", inp, "integers", [v for _, _, v in evs])
             continue
-        cases.append(coq_case(ins, evs, fin))
+        cases.append(coq_case(ins, evs, fin, ut))
         metas.append((inp, [v for _, _, v in evs], fin))
         if any(v for _, _, v in evs):
             keys.append(V.canon([ins, hist_json(h)]))
@@ -306,6 +311,7 @@ def histories_part(env, stats):
     ok, badidx, logs = env.coq_mismatches("hist", PRE, lambda lo, hi: "[" + ";\n ".join(cases[lo:hi]) + "]", "agrees", len(cases), shard=1500)
     if not ok:
         env.proof_broken("history correspondence cases failed to evaluate", logs)
+    stats["caught"]["history-model-correspondence"] += len(badidx)
     for i in badidx:
         inp, vals, fin = metas[i]
         env.disagree("get_input/pop/? /scope history", inp, "(model disagrees)", {"values": vals, "final_inputs": fin})
@@ -569,6 +575,7 @@ def programs_part(env, stats):
         inp = {"kind": "program", "program": prog, "inputs": [str(x) for x in ins]}
         count_ops(items, stats["prog_items"])
         if status != "ok":
+            stats["caught"]["program-oracle"] += 1
             env.fail(inp, f"program does not finish normally: {status} {val}", cls="program-error")
             continue
         got, fin, ut = val
@@ -576,8 +583,10 @@ def programs_part(env, stats):
         exp = []
         expected_records(items, sp, exp)
         if got != exp:
+            stats["caught"]["program-oracle"] += 1
             env.fail(inp, f"recorded reads {got}; the property requires {exp} (⅛ records each value read; pairs are [later, earlier])", cls="program")
         elif fin != [[list(ins), sp.k]] or ut:
+            stats["caught"]["program-oracle"] += 1
             env.fail(inp, f"final ctx.inputs {fin} use_top_input={ut}; the property requires one scope with the cursor at {sp.k}", cls="program")
         lossy = any(True for _ in _lossy(items))
         if lossy:
@@ -594,14 +603,16 @@ def programs_part(env, stats):
             continue
         bad = oracle_events(ins, evs)
         if bad is not None:
+            stats["caught"]["program-decoded-oracle"] += 1
             env.fail(inp, "decoded history " + str([(o, a, v) for o, a, v in evs]) + ": " + bad, cls="program")
         stats["prog_len"][len(evs)] += 1
-        cases.append(coq_case(ins, evs, fin))
+        cases.append(coq_case(ins, evs, fin, ut))
         metas.append((inp, evs, fin))
         keys.append(V.canon([prog, ins]))
     ok, badidx, logs = env.coq_mismatches("prog", PRE, lambda lo, hi: "[" + ";\n ".join(cases[lo:hi]) + "]", "agrees", len(cases), shard=800)
     if not ok:
         env.proof_broken("program correspondence cases failed to evaluate", logs)
+    stats["caught"]["program-model-correspondence"] += len(badidx)
     for i in badidx:
         inp, evs, fin = metas[i]
         env.disagree("program vs model", inp, "(model disagrees)", {"decoded": [[o, a, v] for o, a, v in evs], "final_inputs": fin})
@@ -625,14 +636,14 @@ def _lossy(items):
 def run(env):
     env.rule = ("(1) read histories (ops: explicit `?`, implicit pop of 0-3 missing items, lambda / function scope push with 0-3 arguments, "
                 "scope pop; never a pop at depth 1) applied to the real Context with the template statements taken from the current sources: "
-                "exhaustive up to length 4 over 9 symbols (thorough: plus length <= 6 over 7 symbols) x the input lists of length 0..4, and random "
+                "exhaustive up to length 4 over 9 symbols (thorough: plus length <= 5 over 7 and length <= 6 over 6 symbols) x the input lists of length 0..4, and random "
                 "histories of length <= 12 with random inputs; every value read and the final ctx.inputs compared with the Coq model by vm_compute. "
                 "(2) random programs built from ?⅛ ⅛ \"⅛ \"\"⅛ ?..?W⅛, nested λn|…;†⅛ and @f:n|…; calls with literal or implicit arguments, nesting <= 4, "
                 "run through execute_vyxal; recorded values decoded to a history and compared with the model in Coq. "
                 "(3) oracle on the implementation for all of the above and for programs with +⅛ _ ?+⅛: k-th read served by the program inputs == "
                 "inputs[k mod n], 0 without inputs, implicit reads in a call cycle over its arguments (top of the callee's stack first), final cursor == "
                 "number of reads served. Non-trivial = at least one value is read; distinct by (inputs, history) or (program, inputs).")
-    stats = {"len": collections.Counter(), "ops": collections.Counter(), "prog_items": collections.Counter(), "prog_len": collections.Counter()}
+    stats = {"len": collections.Counter(), "ops": collections.Counter(), "prog_items": collections.Counter(), "prog_len": collections.Counter(), "caught": collections.Counter()}
     histories_part(env, stats)
     programs_part(env, stats)
     env.note("history_length_distribution", {str(k): v for k, v in sorted(stats["len"].items())})
@@ -642,6 +653,7 @@ def run(env):
     env.note("programs", stats.get("programs", 0))
     env.note("program_item_distribution", dict(sorted(stats["prog_items"].items())))
     env.note("program_decoded_history_length_distribution", {str(k): v for k, v in sorted(stats["prog_len"].items())})
+    env.note("violations_by_part", dict(sorted(stats["caught"].items())))
     env.note("input_lists", "exhaustive part: [] [3] [3,4] [3,4,5] [3,4,5,6]; random part: length 0..4, values 0..9 (duplicates and 0 included)")
     env.sample({"obligation": "C11_top: forall ins h, ins <> [] -> well_scoped h -> forall j < |top_vals|, nth j top_vals = nth (j mod |ins|) ins"})
     env.assume("stdin is empty (/dev/null): input() raises EOFError and get_input returns 0; with data on stdin reads without program inputs would consume it")
